@@ -417,7 +417,22 @@ func (w *world) attempt(out *verifh.Out, faulty int, kind, at int, special int) 
 
 	// wait for things to settle, then measure leftovers
 	var dC, dS usage
-	settle(1500*time.Millisecond, func() bool {
+	settle(5*time.Second, func() bool {
+		// a conn the server finished after we stopped waiting for it is still
+		// ours to close (the accept queue handed it to the harness)
+		for drained := false; !drained; {
+			select {
+			case late, ok := <-w.accepted:
+				if ok && late != nil {
+					late.Close()
+					sconn = late
+				} else {
+					drained = true
+				}
+			default:
+				drained = true
+			}
+		}
 		c, s := stat(cli.rm), stat(srv.rm)
 		dC = usage{c.conns - baseC.conns, c.fd - baseC.fd, c.streams - baseC.streams, c.mem - baseC.mem}
 		dS = usage{s.conns - baseS.conns, s.fd - baseS.fd, s.streams - baseS.streams, s.mem - baseS.mem}
